@@ -56,6 +56,10 @@ func (r *voRun) setPending(op string) {
 }
 
 func (r *voRun) eventHook(point string, obj any, args ...any) {
+	if point == "ops.closed" && obj == any(r.o) {
+		r.tr.Emit(vkM{"ev": "closed", "t": r.id, "op": "", "acc": false, "kind": "", "sig": "closed"})
+		return
+	}
 	if point != "ops.enq" || obj != any(r.o) {
 		return
 	}
